@@ -31,6 +31,9 @@ LAYOUTS = {
     "partial_multi": [['m', 'arr', None, 0, 2]],
     # one-bin-per-value array whose first entry is a range (a multi-bin child before further values)
     "range_then_value": [['a', 'arr', None, [0, 1], 3]],
+    # a wildcard bin declared before an ordinary bin, and one that leaves values outside every bin
+    "wild_then_bin": [['w', 'wild', (2, 2)], ['lo', 'bin', [0, 1]]],
+    "wild_partial": [['w', 'wild', (3, 3)], ['z', 'bin', 0]],
 }
 
 
